@@ -23,6 +23,7 @@ enum Ev {
     Call(u8),
     BadCall(u8),
     Provided(u8),
+    ProvidedByValue(u8),
     MakeRefClone(u8),
     Verify(u8),
     Report,
@@ -110,6 +111,7 @@ impl LState {
             if !i.helper {
                 out.push(Ev::Provided(k));
             }
+            out.push(Ev::ProvidedByValue(k));
             if i.chain < 2 {
                 out.push(Ev::MakeRefClone(k));
             }
@@ -177,6 +179,21 @@ impl LState {
             Ev::Provided(k) => {
                 self.inst[k as usize].as_mut().unwrap().helper = true;
                 Outcome::Value(7)
+            }
+            Ev::ProvidedByValue(k) => {
+                // the instance is consumed; when the default body ends it is dropped like any
+                // other drop of that instance (the original verifies there)
+                let i = self.inst[k as usize].unwrap();
+                let out = if i.original && i.verify_in_drop {
+                    match self.teardown(i, false) {
+                        Outcome::Silent => Outcome::Value(8),
+                        other => other,
+                    }
+                } else {
+                    Outcome::Value(8)
+                };
+                self.inst[k as usize] = None;
+                out
             }
             Ev::MakeRefClone(k) => {
                 self.inst[k as usize].as_mut().unwrap().chain += 1;
@@ -311,6 +328,10 @@ fn apply(slots: &mut [Option<Unimock>; SLOTS], ev: Ev) -> Outcome {
             let u = slots[k as usize].as_ref().unwrap();
             lift(catch(|| Outcome::Value(<Unimock as P>::prov(u))))
         }
+        Ev::ProvidedByValue(k) => {
+            let u = slots[k as usize].take().unwrap();
+            lift(catch(move || Outcome::Value(<Unimock as P>::consume(u))))
+        }
         Ev::MakeRefClone(k) => {
             let u = slots[k as usize].as_ref().unwrap();
             lift(catch(|| {
@@ -442,6 +463,7 @@ fn parse_ev(s: &str) -> Option<Ev> {
         "Call" => Ev::Call(arg(s)?),
         "BadCall" => Ev::BadCall(arg(s)?),
         "Provided" => Ev::Provided(arg(s)?),
+        "ProvidedByValue" => Ev::ProvidedByValue(arg(s)?),
         "MakeRefClone" => Ev::MakeRefClone(arg(s)?),
         "Verify" => Ev::Verify(arg(s)?),
         "Report" => Ev::Report,
@@ -563,7 +585,7 @@ fn main() {
         .set("samples", J::Arr(sample.into_iter().collect()))
         .set(
             "event_alphabet",
-            "clone(i), drop(i), call(i), failing call(i), provided-method call(i) (internal helper clone), make_ref(i, clone of i), verify(i), report(), no_verify_in_drop(i), move original to a thread and drop / verify it; <= 4 instances",
+            "clone(i), drop(i), call(i), failing call(i), provided-method call(i) (internal helper clone), by-value provided-method call(i), make_ref(i, clone of i), verify(i), report(), no_verify_in_drop(i), move original to a thread and drop / verify it; <= 4 instances",
         );
     let mut oc = J::obj();
     for (k, v) in &outcome_count {
